@@ -157,4 +157,62 @@ theorem mem_createEdgeList (d : List (String × (String × String))) (edges : Li
     refine ⟨ej, hej, ?_⟩
     simp [edgeOf, hp, h1, h2, h3, h4]
 
+/-- what the FULL term factory adds to the core: definition (text and its cross-references), comment (the document's
+comments joined by ", "), synonyms (each parsed: name, scope, type, cross-references) and the term's cross-references,
+each exactly as stated in the node's `meta` (absent parts give `none`) -/
+theorem mkTerm_full_content (tid : String × String) (n : NodeJ) (t : Term) (h : mkTerm .full tid n = .ok t) :
+    match n.mta with
+    | none => t.definition = none ∧ t.comment = none ∧ t.synonyms = none ∧ t.xrefs = none
+    | some mj =>
+      t.definition = mj.definition.bind (fun d => d.val.map (fun v => (v, d.xrefs))) ∧
+      t.comment = (if mj.comments.isEmpty then none else some (", ".intercalate mj.comments)) ∧
+      t.synonyms = (if mj.synonyms.isEmpty then none else some (mj.synonyms.map parseSynonym)) ∧
+      (if mj.xrefs.isEmpty then t.xrefs = none
+       else ∃ l, mapM' xrefTid mj.xrefs = some l ∧
+            t.xrefs = some l) := by
+  unfold mkTerm at h
+  cases ha : altIds n.mta with
+  | none => simp [ha] at h
+  | some alts =>
+    simp only [ha] at h
+    cases hm : n.mta with
+    | none =>
+      simp only [hm] at h
+      injection h with h; subst h
+      exact ⟨rfl, rfl, rfl, rfl⟩
+    | some mj =>
+      simp only [hm] at h
+      -- the definition part
+      cases hd : mj.definition with
+      | none =>
+        simp only [hd] at h
+        by_cases hx : mj.xrefs.isEmpty
+        · simp only [hx, if_true] at h
+          injection h with h; subst h
+          simp [hd, hx]
+        · simp only [hx] at h
+          cases hmm : mapM' xrefTid mj.xrefs with
+          | none => simp [hmm] at h
+          | some l =>
+            simp only [hmm] at h
+            injection h with h; subst h
+            simp [hd, hx, hmm]
+      | some d =>
+        simp only [hd] at h
+        cases hv : d.val with
+        | none => simp [hv] at h
+        | some v =>
+          simp only [hv] at h
+          by_cases hx : mj.xrefs.isEmpty
+          · simp only [hx, if_true] at h
+            injection h with h; subst h
+            simp [hd, hv, hx]
+          · simp only [hx] at h
+            cases hmm : mapM' xrefTid mj.xrefs with
+            | none => simp [hmm] at h
+            | some l =>
+              simp only [hmm] at h
+              injection h with h; subst h
+              simp [hd, hv, hx, hmm]
+
 end Hpv.Obo
